@@ -976,6 +976,78 @@ var c04VarFams = []*c04VarFam{
 			c04VS("FromSlice(a,b)", func(_ []ro.Observable[int]) ro.Observable[int] { c := cp(); return ro.FromSlice(c[:h], c[h:]) }),
 		}
 	}},
+	{name: "Iif", nsrc: 2, mk: func(k int, lg *c04Log, _ []int) []c04Variant {
+		pred := func() bool { return k%2 == 0 }
+		return []c04Variant{
+			c04VS("Iif", func(s []ro.Observable[int]) ro.Observable[int] { return ro.Iif(pred, s[0], s[1])() }),
+			c04VS("Defer(if)", func(s []ro.Observable[int]) ro.Observable[int] {
+				return ro.Defer(func() ro.Observable[int] {
+					if pred() {
+						return s[0]
+					}
+					return s[1]
+				})
+			}),
+		}
+	}},
+	{name: "Start", loose: true, mk: func(k int, lg *c04Log, _ []int) []c04Variant {
+		return []c04Variant{
+			c04VS("Just", func(_ []ro.Observable[int]) ro.Observable[int] { return ro.Just(k) }),
+			c04VS("Start", func(_ []ro.Observable[int]) ro.Observable[int] { return ro.Start(func() int { return k }) }),
+			c04VS("Future", func(_ []ro.Observable[int]) ro.Observable[int] {
+				return ro.Future(func() (int, error) { return k, nil })
+			}),
+			c04VS("Defer(Just)", func(_ []ro.Observable[int]) ro.Observable[int] {
+				return ro.Defer(func() ro.Observable[int] { return ro.Just(k) })
+			}),
+		}
+	}},
+	{name: "FutureErr", loose: true, mk: func(k int, lg *c04Log, _ []int) []c04Variant {
+		return []c04Variant{
+			c04VS("Throw", func(_ []ro.Observable[int]) ro.Observable[int] { return ro.Throw[int](ScriptError(k)) }),
+			c04VS("Future", func(_ []ro.Observable[int]) ro.Observable[int] {
+				return ro.Future(func() (int, error) { return 0, ScriptError(k) })
+			}),
+		}
+	}},
+	{name: "Timestamp", mk: func(k int, lg *c04Log, _ []int) []c04Variant {
+		return []c04Variant{
+			c04V("Map(id)", ro.Map(func(x int) int { return x })),
+			c04VS("Timestamp.Value", func(s []ro.Observable[int]) ro.Observable[int] {
+				return ro.Map(func(v ro.TimestampValue[int]) int { return v.Value })(ro.Timestamp[int]()(s[0]))
+			}),
+			c04VS("TimeInterval.Value", func(s []ro.Observable[int]) ro.Observable[int] {
+				return ro.Map(func(v ro.IntervalValue[int]) int { return v.Value })(ro.TimeInterval[int]()(s[0]))
+			}),
+		}
+	}},
+	{name: "CombineLatestAny", nsrc: 3, mk: func(k int, lg *c04Log, _ []int) []c04Variant {
+		toAny := func(s []ro.Observable[int]) []ro.Observable[any] {
+			out := make([]ro.Observable[any], len(s))
+			for i := range s {
+				out[i] = ro.Map(func(x int) any { return x })(s[i])
+			}
+			return out
+		}
+		anys2i := func(a []any) int {
+			v := make([]int, len(a))
+			for i := range a {
+				v[i], _ = a[i].(int)
+			}
+			return sl2i(v)
+		}
+		return []c04Variant{
+			c04VS("CombineLatestAll", func(s []ro.Observable[int]) ro.Observable[int] {
+				return ro.Map(sl2i)(ro.CombineLatestAll[int]()(ro.Just(s...)))
+			}),
+			c04VS("CombineLatestAny", func(s []ro.Observable[int]) ro.Observable[int] {
+				return ro.Map(anys2i)(ro.CombineLatestAny(toAny(s)...))
+			}),
+			c04VS("CombineLatestAllAny", func(s []ro.Observable[int]) ro.Observable[int] {
+				return ro.Map(anys2i)(ro.CombineLatestAllAny()(ro.Just(toAny(s)...)))
+			}),
+		}
+	}},
 	{name: "Race", nsrc: 2, mk: func(k int, lg *c04Log, _ []int) []c04Variant {
 		return []c04Variant{
 			c04VS("Race", func(s []ro.Observable[int]) ro.Observable[int] { return ro.Race(s...) }),
